@@ -15,6 +15,16 @@ Parts
   navigate-encoded bases and references whose segments carry percent-encoded delimiters ('x%2Fy', '%2F', '%2F..',
                   'q%3Fr', 'h%23s') or reserved characters that are legal inside a segment ('x:', 'a:b@c', 'p;k=v',
                   hence also 'g/x://h' - a "://" inside a path): a segment is one segment whatever it decodes to
+  navigate-hostless  absolute bases without a host: rootless ('urn:a', 'mailto:x@y', 'foo:a/b'), rooted ('foo:/a/b') and
+                  with an empty authority ('file:///a/b').  Two classes of cases are left out (counted as skipped_*): those
+                  where the literal 5.2.4 algorithm turns a rootless path into a rooted one ('foo:a/b' + '..' -> 'foo:/'), and
+                  targets whose path would begin with '//' without a host (not a URI, RFC 3986 3.3 / URL cannot hold it)
+  navigate-hosts  bases / absolute references whose host is an internationalized name that URL renders back unchanged
+                  (lower-case letters whose case folding, compatibility form or upper-lower round trip is another
+                  letter: sharp s, final sigma, long s, ligatures, dotless i ...) and mixed-case ASCII hosts / schemes
+                  (compared modulo ASCII case of scheme and host, RFC 3986 6.2.2.1; userinfo is case-sensitive)
+  navigate-pct    segments with an escaped percent sign ('%252e%252e' is the literal text '%2e%2e', an ordinary
+                  segment): compared in the fully quoted rendering, the one that writes a literal '%' as '%25'
   navigate-long   directed (not exhaustive): references and base paths of 15 .. 1025 repeated units
   absolute        references that carry their own scheme and host (replace the base entirely)
   chain           base.navigate(r1).navigate(r2) against the reference applied step by step
@@ -156,6 +166,46 @@ def canon(t):
     return (s, a, p, q, f)
 
 
+_ASCII_LOWER = {c: c + 32 for c in range(ord('A'), ord('Z') + 1)}
+
+
+def has_ascii_upper(t):
+    """Scheme or host of the split URI t contains an ASCII capital."""
+    s, a = t[0] or '', (t[1] or '').rpartition('@')[2]
+    return (s + a).translate(_ASCII_LOWER) != s + a
+
+
+def fold_case(t):
+    """RFC 3986 6.2.2.1: scheme and host are case-insensitive (ASCII letters only; userinfo is left alone)."""
+    s, a, p, q, f = t
+    if s is not None:
+        s = s.translate(_ASCII_LOWER)
+    if a is not None:
+        ui, at, hostport = a.rpartition('@')
+        a = ui + at + hostport.translate(_ASCII_LOWER)
+    return (s, a, p, q, f)
+
+
+def hostless_skip(bs, rs):
+    """Cases of a base without a host that are left out, decided on the reference model alone:
+    'rooted'  - the literal 5.2.4 algorithm makes a rooted path out of a rootless one ('a/..' -> '/', 'a/../b' -> '/b')
+    'slashes' - the target path would begin with '//' although there is no host"""
+    if rs[0] is not None or rs[1] is not None:
+        return None
+    if rs[2] == '':
+        p = bs[2]
+    elif rs[2].startswith('/'):
+        p = rs[2]
+    else:
+        p = merge(bs[1], bs[2], rs[2])
+    t = remove_dot_segments(p)
+    if not p.startswith('/') and t.startswith('/'):
+        return 'rooted'
+    if not bs[1] and t.startswith('//'):
+        return 'slashes'
+    return None
+
+
 _COMPONENTS = ('scheme', 'authority', 'path', 'query', 'fragment')
 
 
@@ -224,6 +274,50 @@ ABS_AUTHORITIES = ('h', 'a', 'h:8080', 'u:pw@h', '[::2]:8080')
 NORMALIZE_PREFIXES = ('', 'http://a', 'HTTP://A.b:8080', 'x://h', 'http://[::1]', 'http://u:pw@a')
 
 
+HOSTLESS_BASES = (
+    'urn:a', 'mailto:x@y', 'foo:bar', 'foo:a/b', 'foo:a/b/', 'foo:a/b/c?q#f', 'foo:/a/b', 'foo:/', 'foo:/a/b/?q',
+    'foo:', 'foo:?q', 'foo:a#f', 'foo:a//b', 'foo:a/../b', 'foo:/a/./b/..',
+    'file:///a/b', 'file:///', 'file:///a/b/?q#f', 'file:///a/../b',
+)
+
+
+def _special_lower_letters():
+    """Lower-case BMP letters (c.lower() == c) that some other case / compatibility mapping turns into different text:
+    found by introspection of the Unicode tables of the running Python, grouped by the mapping."""
+    import unicodedata
+    fold, compat, round_trip = [], [], []
+    for cp in range(0x80, 0x3000):
+        c = chr(cp)
+        if not c.isalpha() or c.lower() != c or unicodedata.normalize('NFC', c) != c:
+            continue
+        if c.casefold() != c:
+            fold.append(c)
+        elif unicodedata.normalize('NFKC', c) != c:
+            compat.append(c)
+        elif c.upper().lower() != c:
+            round_trip.append(c)
+    return fold, compat, round_trip
+
+
+def host_bases():
+    fold, compat, round_trip = _special_lower_letters()
+    names = ['stra\u00dfe', '\u03bf\u03b4\u03cc\u03c2', '\u017ftore', '\ufb01x', '\u0131x', '\u00e9', 'e\u0301', '\u00aa',
+             '\u4f8b\u3048']
+    for group in (fold, compat[:48], round_trip[:24]):
+        names += [''.join(group[i:i + 8]) for i in range(0, len(group), 8)]
+    bases = ['http://%s.example/b/c' % n for n in names]
+    bases += ['http://u:pw@stra\u00dfe.example:8080/b/c?q#f', 'x://ma\u00dfe/p', 'https://\u03c2.example',
+              'http://User:Pw@A.Example:8080/b/c', 'HTTP://A/b/c?q', 'http://A.B', 'X://H/p/q']
+    return bases
+
+
+HOST_REF_BASES = ('http://a/b/c', 'x://h')
+PCT_SEGMENTS = ('..', '', 'g', '%252e%252e', '%252E', '%2525', '100%25', '%25252e')
+PCT_BASES = ('http://a/b/c', 'http://a/%252e%252e/b', 'http://a/100%2525/x?q', 'http://a/b/%252E/', 'http://a')
+PCT_QF = ((None, None), ('k=%2541', '%2523'))
+CHAIN_PCT_SEGMENTS = ('..', 'g', '%252e%252e', '%2525')
+
+
 def ref_paths(kind, alphabet, maxseg):
     """All reference paths of the kind with <= maxseg segments, shortest first, each text exactly once.
     'abs'  : '' (empty path), then '/' + segments (first segment non-empty: '//' would start an authority)
@@ -282,6 +376,8 @@ def _tags(base, r):
     tags = []
     if base[1] and '[' in base[1]:
         tags.append('base_ipv6')
+    if not base[1]:
+        tags.append('base_hostless')
     if base[2] == '':
         tags.append('base_path_empty')
     if base[3] is not None:
@@ -303,10 +399,13 @@ def _tags(base, r):
     return tags
 
 
-def compare(fn, exp_t, obs_text, shape, out, tags):
-    """Compare a rendered result with the expected target; append (sig, expected, observed, tags)."""
+def compare(fn, exp_t, obs_text, shape, out, tags, fold=False):
+    """Compare a rendered result with the expected target; append (sig, expected, observed, tags).
+    fold: the inputs carry ASCII capitals in scheme / host - compare modulo their case (never set otherwise)."""
     exp_c = canon(exp_t)
     obs_c = canon(split_uri(obs_text))
+    if fold:
+        exp_c, obs_c = canon(fold_case(exp_c)), canon(fold_case(obs_c))
     what, delim = differences(exp_c, obs_c)
     if what is not None:
         if what in ('path', 'query', 'fragment'):
@@ -389,7 +488,8 @@ def eval_object_states(URL, bi, ref, obs, out, stats=None):
             out.append(('C07|fn:navigate|raised(URL-object-dest)', recompose(canon(exp_t)),
                         'raised %s' % type(e).__name__, tags))
             continue
-        compare('navigate(URL-object-dest)', exp_t, o, ref_shape(rs), out, tags)
+        compare('navigate(URL-object-dest)', exp_t, o, ref_shape(rs), out, tags,
+                has_ascii_upper(bi.split) or has_ascii_upper(rs) or has_ascii_upper(split_uri(ref)))
         try:
             after = snapshot(base)
         except Exception as e:
@@ -435,6 +535,16 @@ def eval_object_states(URL, bi, ref, obs, out, stats=None):
             out.append(('C07|fn:navigate|result-not-a-usable-URL', None, 'raised %s' % type(e).__name__, tags))
 
 
+def _render(u, fq):
+    return u.to_text(full_quote=True) if fq else u.to_text()
+
+
+def wants_full_quote(*texts):
+    """An escaped percent sign is involved: URL holds the decoded text and only its fully quoted rendering writes a
+    literal '%' back as '%25' (the plain rendering of 'http://a/%252e' is 'http://a/%2e', another URI)."""
+    return any('%25' in t for t in texts)
+
+
 def eval_navigate(URL, bi, ref, objects=False, stats=None):
     """One resolution with every per-resolution oracle.  Returns a list of (sig, expected, observed, tags)."""
     out = []
@@ -442,15 +552,20 @@ def eval_navigate(URL, bi, ref, objects=False, stats=None):
     shape = ref_shape(r)
     tags = _tags(bi.split, r)
     exp_t = expected_target(bi.split, r)
+    fq = wants_full_quote(bi.text, ref)
+    fold = has_ascii_upper(bi.split) or has_ascii_upper(r)
+    if fq:
+        objects = False                # the object states are compared through the plain rendering
+        tags = tags + ['escaped_percent']
     try:
         base = URL(bi.text)
         res = base.navigate(ref)
-        obs = res.to_text()
+        obs = _render(res, fq)
     except Exception as e:
         out.append(('C07|fn:navigate|raised', recompose(canon(exp_t)), 'raised %s' % type(e).__name__, tags))
         return out
-    ok = compare('navigate', exp_t, obs, shape, out, tags)
-    if ok and (objects or '%' in obs) and obs.isascii():
+    ok = compare('navigate', exp_t, obs, shape, out, tags, fold)
+    if ok and not fq and (objects or '%' in obs) and obs.isascii():
         # the target is an ASCII URI made of characters that are legal where they stand (escapes included), so
         # its fully quoted rendering is the same text; a result that holds e.g. still-encoded segments renders to
         # the target only by accident of the lenient default quoting
@@ -479,10 +594,10 @@ def eval_navigate(URL, bi, ref, objects=False, stats=None):
     # the reference given as a URL object resolves like that object's text
     try:
         dest = URL(ref)
-        dest_text = dest.to_text()
+        dest_text = _render(dest, fq)
         base2 = URL(bi.text)
-        obs_obj = base2.navigate(dest).to_text()
-        obs_txt = obs if dest_text == ref else URL(bi.text).navigate(dest_text).to_text()
+        obs_obj = _render(base2.navigate(dest), fq)
+        obs_txt = obs if dest_text == ref else _render(URL(bi.text).navigate(dest_text), fq)
         if obs_obj != obs_txt:
             out.append(('C07|fn:navigate|URL-object-dest-differs-from-its-text', obs_txt, obs_obj, tags))
         after = snapshot(base2)
@@ -511,14 +626,20 @@ def eval_chain(URL, bi, r1, r2, u1=None):
     e1 = expected_target(bi.split, s1)
     e2 = expected_target(e1, s2)
     tags = _tags(e1, s2)
+    fq = wants_full_quote(bi.text, r1, r2)
+    fold = has_ascii_upper(bi.split) or has_ascii_upper(s1) or has_ascii_upper(s2)
     try:
         if u1 is None:
             u1 = URL(bi.text).navigate(r1)
-        obs = u1.navigate(r2).to_text()
+        res = u1.navigate(r2)
+        obs = _render(res, fq)
     except Exception as e:
         out.append(('C07|fn:navigate-chain|raised', recompose(canon(e2)), 'raised %s' % type(e).__name__, tags))
         return out
-    compare('navigate-chain', e2, obs, ref_shape(s2), out, tags)
+    compare('navigate-chain', e2, obs, ref_shape(s2), out, tags, fold)
+    rsegs = [str(p) for p in res.path_parts]
+    if '.' in rsegs or '..' in rsegs:
+        out.append(('C07|fn:navigate-chain|dot-segment-in-result', 'no "." or ".." in path_parts', rsegs, tags))
     return out
 
 
@@ -633,6 +754,7 @@ def shard_navigate(arg, t, g):
     bi = _base_info(g, URL, arg['part'], arg['base'])
     stats = {}
     relative_only = arg.get('relative_only', False)
+    hostless = arg.get('hostless', False)
     qf = arg.get('qf') or [(q, f) for q in arg['queries'] for f in arg['fragments']]
     try:
         for path in ref_paths(arg['kind'], arg['alphabet'], arg['maxseg']):
@@ -643,6 +765,12 @@ def shard_navigate(arg, t, g):
                 if relative_only and split_uri(ref)[:2] != (None, None):
                     t.add('skipped_not_a_relative_reference')
                     continue                   # e.g. 'x:/g': a scheme without a host, outside the statement
+                if hostless:
+                    why = hostless_skip(bi.split, split_uri(ref))
+                    if why:
+                        t.add('skipped_rfc_roots_a_rootless_path' if why == 'rooted'
+                              else 'skipped_target_path_begins_with_two_slashes_without_host')
+                        continue
                 case = {'part': arg['part'], 'base': bi.text, 'refs': [ref]}
                 if objects:
                     case['objects'] = True
@@ -682,6 +810,44 @@ def shard_long(arg, t, g):
             t.count(nontrivial=True, sample={'part': 'navigate-long', 'n': n, 'base': base[:40], 'ref': ref[:40]}
                     if len(t.samples) < 2 else None)
             _record(t, case, g.call(case, eval_navigate, URL, bi, ref, objects, None))
+
+
+HOST_REFS = ('', 'g', './g', '../g', '/g', 'g/', '..', '../../h/./i?y#s', '?y', '#s', '/')
+
+
+def shard_hosts(arg, t, g):
+    """One base with a special host: a few references, chains, and the base text (plus path, query, fragment) as an
+    absolute reference from other bases."""
+    URL = _url()
+    try:
+        URL(arg['base'])
+    except Exception:
+        t.add('skipped_host_not_accepted_by_URL')      # not a base URL at all (URL() validates hosts through IDNA)
+        return
+    bi = _base_info(g, URL, 'navigate-hosts', arg['base'])
+    stats = {}
+    try:
+        for ref in HOST_REFS:
+            case = {'part': 'navigate-hosts', 'base': bi.text, 'refs': [ref], 'objects': True}
+            t.count(nontrivial=path_is_nontrivial(split_uri(ref)[2]), sample=case if len(t.samples) < 2 else None)
+            _record(t, case, g.call(case, eval_navigate, URL, bi, ref, True, stats))
+        for r1, r2 in (('g/', '../h'), ('', '#s'), ('/x/y', 'z?y')):
+            case = {'part': 'navigate-hosts', 'base': bi.text, 'refs': [r1, r2]}
+            t.count(nontrivial=True)
+            _record(t, case, g.call(case, _chain_fresh, URL, bi, r1, r2))
+        s, a = bi.split[:2]
+        for other in HOST_REF_BASES:
+            obi = _base_info(g, URL, 'navigate-hosts', other)
+            for tail in ('', '/', '/x/../y?z#w', '/x/./y/..'):
+                ref = '%s://%s%s' % (s, a, tail)
+                case = {'part': 'navigate-hosts', 'base': obi.text, 'refs': [ref], 'objects': True}
+                t.count(nontrivial=path_is_nontrivial(tail))
+                _record(t, case, g.call(case, eval_navigate, URL, obi, ref, True, stats))
+            case = {'part': 'navigate-hosts', 'base': obi.text, 'refs': ['%s://%s/x/y' % (s, a), '../z']}
+            t.count(nontrivial=True)
+            _record(t, case, g.call(case, _chain_fresh, URL, obi, case['refs'][0], case['refs'][1]))
+    finally:
+        _flush(t, stats)
 
 
 def shard_absolute(arg, t, g):
@@ -742,10 +908,18 @@ def shard_chain(arg, t, g):
     URL = _url()
     bi = _base_info(g, URL, 'chain', arg['base'])
     refs2 = arg['refs2']
+    hostless = not bi.split[1]
     for r1, nt1 in arg['refs1']:
         u1, snap1 = g.call({'part': 'chain', 'base': bi.text, 'refs': [r1]}, _first_step, URL, bi, r1) or (None, None)
         rows = []
+        todo = []
         for r2, nt2 in refs2:
+            if hostless:               # same two classes left out as in the navigate-hostless part, at either step
+                s1 = split_uri(r1)
+                if hostless_skip(bi.split, s1) or hostless_skip(expected_target(bi.split, s1), split_uri(r2)):
+                    t.add('skipped_hostless_rooted_or_two_slashes')
+                    continue
+            todo.append((r2, nt2))
             case = {'part': 'chain', 'base': bi.text, 'refs': [r1, r2]}
             t.count(nontrivial=nt1 or nt2, sample=case if len(t.samples) < 3 else None)
             rows.append((case, g.call(case, eval_chain, URL, bi, r1, r2, u1)))
@@ -759,7 +933,7 @@ def shard_chain(arg, t, g):
                 dirty = True
         if dirty:
             rows = []
-            for r2, nt2 in refs2:
+            for r2, nt2 in todo:
                 case = {'part': 'chain', 'base': bi.text, 'refs': [r1, r2]}
                 rows.append((case, g.call(case, _chain_fresh, URL, bi, r1, r2)))
         for case, res in rows:
@@ -787,11 +961,13 @@ def bounds(tier):
         return {'navigate_maxseg': 4, 'names_maxseg': 3, 'absolute_maxseg': 2, 'chain_maxseg': 2,
                 'object_maxseg': 2, 'absolute_object_maxseg': 1, 'encoded_maxseg': 3, 'reserved_maxseg': 2,
                 'encoded_deep_bases': 9,
-                'chain_bases': 4, 'chain_second': 'path x {"", "?y#s"}', 'normalize_maxseg': 4}
+                'chain_bases': 4, 'chain_second': 'path x {"", "?y#s"}', 'normalize_maxseg': 4,
+                'hostless_maxseg': 3, 'pct_maxseg': 2}
     return {'navigate_maxseg': 5, 'names_maxseg': 4, 'absolute_maxseg': 3, 'chain_maxseg': 2,
             'object_maxseg': 3, 'absolute_object_maxseg': 2, 'encoded_maxseg': 4, 'reserved_maxseg': 3,
             'encoded_deep_bases': len(ENC_BASES),
-            'chain_bases': len(CHAIN_BASES), 'chain_second': 'path x {"", "?y"} x {"", "#s"}', 'normalize_maxseg': 6}
+            'chain_bases': len(CHAIN_BASES), 'chain_second': 'path x {"", "?y"} x {"", "#s"}', 'normalize_maxseg': 6,
+            'hostless_maxseg': 5, 'pct_maxseg': 3}
 
 
 def run(ctx):
@@ -833,6 +1009,23 @@ def run(ctx):
              for base in BASES for kind in ('abs', 'rel')]
     inputs.run_shards(ctx, _guarded(shard_navigate), args, part='navigate-encoded', rule=rule)
 
+    # bases without a host
+    args = [{'part': 'navigate-hostless', 'base': base, 'kind': kind, 'alphabet': SEGMENTS, 'maxseg': b['hostless_maxseg'],
+             'queries': (None, 'y'), 'fragments': FRAGMENTS, 'object_maxseg': 1, 'hostless': True}
+            for base in HOSTLESS_BASES for kind in ('abs', 'rel')]
+    inputs.run_shards(ctx, _guarded(shard_navigate), args, part='navigate-hostless', rule=rule)
+
+    # hosts with letters that case folding / compatibility mappings would rename, mixed-case ASCII hosts and schemes
+    hosts = host_bases()
+    args = [{'part': 'navigate-hosts', 'base': base} for base in hosts]
+    inputs.run_shards(ctx, _guarded(shard_hosts), args, part='navigate-hosts', rule=rule)
+
+    # segments (query values, fragments) with an escaped percent sign, compared in the fully quoted rendering
+    args = [{'part': 'navigate-pct', 'base': base, 'kind': kind, 'alphabet': PCT_SEGMENTS, 'maxseg': b['pct_maxseg'],
+             'qf': PCT_QF, 'relative_only': True}
+            for base in PCT_BASES for kind in ('abs', 'rel')]
+    inputs.run_shards(ctx, _guarded(shard_navigate), args, part='navigate-pct', rule=rule)
+
     # directed, not exhaustive: references / base paths of many segments (sizes around powers of two)
     args = [{'part': 'navigate-long', 'n': n} for n in LONG_SIZES]
     inputs.run_shards(ctx, _guarded(shard_long), args, part='navigate-long', rule=rule)
@@ -856,6 +1049,9 @@ def run(ctx):
     for base in CHAIN_ENC_BASES:
         for i in range(4):
             args.append({'part': 'chain', 'base': base, 'refs1': enc_refs[i::4], 'refs2': enc_refs2})
+    pct_refs = chain_refs(2, (None,), (None,), CHAIN_PCT_SEGMENTS)
+    for base in ('http://a/b/c', 'http://a/%252e%252e/b?q', 'foo:a/b/c', 'file:///a/b'):
+        args.append({'part': 'chain', 'base': base, 'refs1': pct_refs, 'refs2': pct_refs})
     inputs.run_shards(ctx, _guarded(shard_chain), args, part='chain', rule=rule)
 
     args = [{'part': 'normalize', 'prefix': p, 'alphabet': SEGMENTS, 'maxseg': b['normalize_maxseg']}
@@ -864,6 +1060,9 @@ def run(ctx):
              for p in ('', 'http://a')]
     args += [{'part': 'normalize', 'prefix': p, 'alphabet': ENC_SEGMENTS, 'maxseg': b['encoded_maxseg']}
              for p in ('', 'http://a')]
+    args += [{'part': 'normalize', 'prefix': p, 'alphabet': PCT_SEGMENTS, 'maxseg': b['pct_maxseg']}
+             for p in ('', 'http://a', 'foo:a')]
+    args += [{'part': 'normalize', 'prefix': p.rsplit('/b/c', 1)[0], 'alphabet': SEGMENTS, 'maxseg': 1} for p in hosts]
     inputs.run_shards(ctx, _guarded(shard_normalize), args, part='normalize', rule=rule)
 
     cov = ctx.coverage
@@ -883,16 +1082,32 @@ def run(ctx):
                          delim_fragments=list(DELIM_FRAGMENTS[1:]), chain_encoded_segments=list(CHAIN_ENC_SEGMENTS),
                          chain_encoded_bases=list(CHAIN_ENC_BASES), chain_encoded_first_refs=len(enc_refs),
                          chain_encoded_second_refs=len(enc_refs2), long_sizes=list(LONG_SIZES),
-                         long_bases=list(LONG_BASES) + ['http://a/<n times b/>c?q'])
+                         long_bases=list(LONG_BASES) + ['http://a/<n times b/>c?q'],
+                         hostless_bases=list(HOSTLESS_BASES), host_bases=hosts, host_refs=list(HOST_REFS),
+                         host_ref_bases=list(HOST_REF_BASES), pct_segments=list(PCT_SEGMENTS),
+                         pct_bases=list(PCT_BASES), pct_query_fragment=[list(x) for x in PCT_QF],
+                         chain_pct_segments=list(CHAIN_PCT_SEGMENTS))
     cov['directed_parts'] = {'navigate-long': 'not exhaustive in any sense beyond its own list: %d reference patterns '
                              'of n..5n segments per base, n in long_sizes' % len(long_refs(1))}
     ctx.assumptions += [
-        'base URLs are absolute and have a host (authority); hosts and schemes are lower-case, DNS-valid names or '
-        'IP literals',
+        'base URLs are absolute.  Bases without a host (navigate-hostless: rootless, rooted, empty authority) are resolved '
+        'except for two classes decided on the reference model alone and counted as skipped_*: cases where the literal RFC '
+        '3986 5.2.4 algorithm turns a rootless path into a rooted one ("foo:a/b" + ".." -> "foo:/", URL gives "foo:"), and '
+        'targets whose path would begin with "//" without a host (RFC 3986 3.3 forbids it / URL("file:////a") drops the '
+        'empty segments).  "foo://" (empty authority, empty path) and "file:/a/b" (URL re-spells it "file:///a/b") are '
+        'not explored',
+        'hosts are DNS-valid lower-case names or IP literals, internationalized names that URL renders back unchanged '
+        '(navigate-hosts; letters found by introspection of the Unicode tables: c.lower() == c but casefold / NFKC / '
+        'upper().lower() give other text), or carry ASCII capitals in scheme / host - only these last cases are compared '
+        'modulo ASCII case of scheme and host (RFC 3986 6.2.2.1), userinfo exactly.  Punycode ("xn--") hosts are re-spelled '
+        'by URL and not explored; a host that URL() itself rejects is counted as skipped_host_not_accepted_by_URL',
+        'segments / query values / fragments with an escaped percent sign ("%252e%252e", "%2525", "100%25"; navigate-pct, '
+        'chain, normalize) are ordinary text for the RFC reference; these cases are compared in the fully quoted '
+        'rendering to_text(full_quote=True), the plain rendering writes a literal "%" unescaped and is not demanded',
         'percent-encoding: only segments that URL renders back unchanged are used (upper-case hex escapes of the '
         'delimiters "/", "?", "#" and of "&", "=" in queries; reserved characters ":", "@", ";", "=" that are legal '
         'in a segment; one non-ASCII letter); an escape is opaque text for the RFC reference.  Escapes that URL '
-        're-spells when rendering (%20, %41, %2E, %25, lower-case hex) and encoded dots are not explored: the '
+        're-spells when rendering (%20, %41, %2E, lower-case hex) and encoded dots are not explored: the '
         'statement says nothing about percent-encoding normalization',
         'to_text(full_quote=True) of the result is demanded to equal the plain rendering whenever that is ASCII: every '
         'character of the explored alphabets is legal where it stands, so full quoting has nothing to change',
